@@ -19,6 +19,8 @@ CLAIMS = {
             "Codec::encode is replaced by a frame model (4- and 8-byte frames of symbolic content) in this harness - over the real encoder's Bytes the query exceeds 16 GB; -Z restrict-vtable is required. Blocking connection only: tokio write path, UDP and WebSocket adaptors not claimed."),
     "C07": ("Packet::maybe_pong / Tiny::is_keepalive for every TINY (256 request ids x all sub-types) and every other kind.",
             "Decision function only: that Framed::read writes the reply once, before returning, and nothing else, is NOT decided (read loop does not close)."),
+    "C08": ("WRITE half of the blocking UDP adaptor: UdpStream::write issues exactly one send with exactly the frame's bytes (4- and 12-byte frames of symbolic content); two packets through blocking Framed over UdpStream leave as two datagrams, each exactly its frame.",
+            "Write half and blocking adaptor only. The READ half (datagrams delivered intact, tail kept across reads, long sessions) does not close even with concrete datagram and read sizes; the tokio adaptor needs a reactor. UdpSocket::send stubbed (records the datagram, reports the full length); Codec::encode replaced by a frame model; -Z restrict-vtable."),
     "C09": ("Packet::maybe_verify_version for all 256 versions and every other kind; VERSION == 9.",
             "Decision function only: application of the gate inside Framed::read / Builder::verify_version wiring is NOT decided."),
     "C11": ("Fixed-width and align-4 text writers, MST/MSX/MSL/MTC frames and the fixed-width reader, for text lengths enumerated around every field width (concrete per harness) with symbolic ASCII content; reader over every [u8; N] image.",
@@ -39,7 +41,6 @@ CLAIMS = {
 
 NOT_APPLICABLE = {
     "C05": "blocking Framed::read over a nondeterministic transport gives no result in 25 min even for one concrete 4-byte frame (BytesMut + 73-variant Packet::read under CBMC); the tokio half needs the runtime's time driver",
-    "C08": "blocking UdpStream::read with recv stubbed exceeds 13.9 GB in 3 min for datagrams <= 8 bytes (1020-byte scratch array + BytesMut copies with symbolic lengths); the tokio adaptor needs a reactor",
     "C10": "encoding_rs (inline asm, CPUID multiversioning, AVX2) is untranslatable by Kani; with it stubbed the residual marker scanner needs > 18 GB for 3 input bytes",
     "C12": "unescape(escape(s)) over two ASCII characters needs 27.8 GB in the SAT stage; the property's interactions need three",
     "C19": "needs tokio's time driver/reactor; Kani models neither runtime nor concurrency",
